@@ -61,6 +61,10 @@ func NewInverseWishartDistribution(nu Scalar, s Matrix) (*InverseWishartDistribu
   if err != nil {
     return nil, err
   }
+  if v := sDet.GetFloat64(); !(v > 0.0) {
+    // zero, negative or NaN (a vanishing pivot of the Cholesky decomposition)
+    return nil, fmt.Errorf("NewInverseWishartDistribution(): S is not positive definite")
+  }
   d := NewScalar(t, float64(n))
   // negative log partition function
   z := NewScalar(t, 0.0)
